@@ -11,7 +11,8 @@
 From Coq Require Import String List Bool NArith Permutation.
 Import ListNotations.
 Require Import PV.Det.SetConsumers PV.Det.Audit PV.Gen.Sites.
-Require Import PV.Proofs.DetConsumers PV.Proofs.DetSites PV.Proofs.DetClosure.
+Require Import PV.Det.Memo PV.Det.StateAudit PV.Gen.State.
+Require Import PV.Proofs.DetConsumers PV.Proofs.DetSites PV.Proofs.DetClosure PV.Proofs.DetMemo PV.Proofs.DetState.
 Open Scope list_scope.
 
 (* 1. every order-free consumer kind returns the same result for every arrangement of the set *)
@@ -42,6 +43,19 @@ Theorem C10_worklist_closure_choice_independent : forall succ pend seen r1 r2,
   closure_run succ pend seen r1 -> closure_run succ pend seen r2 -> forall x, In x r1 <-> In x r2.
 Proof. exact closure_choice_independent. Qed.
 Print Assumptions C10_worklist_closure_choice_independent.
+
+(* 4b. FunctionScope._resolve_origin in full: a definer unknown to this scope aborts the search
+       (EMPTY_ORIGIN).  Whether the search aborts, and otherwise the visited set, do not depend
+       on which element pop() returns *)
+Theorem C10_resolve_origin_choice_independent : forall succ known pend seen r1 r2,
+  oclosure_run succ known pend seen r1 -> oclosure_run succ known pend seen r2 ->
+  match r1, r2 with
+  | None, None => True
+  | Some a, Some b => forall x, In x a <-> In x b
+  | _, _ => False
+  end.
+Proof. exact oclosure_choice_independent. Qed.
+Print Assumptions C10_resolve_origin_choice_independent.
 
 (* 5. sorted(): the repaired protocol-member loop *)
 Theorem C10_sorted_perm_invariant : forall s s', Permutation s s' ->
@@ -108,6 +122,45 @@ Theorem C10_memo_history_independent : forall f h1 h2 k,
   snd (memo_call f (replay_history f [] h1) k) = snd (memo_call f (replay_history f [] h2) k).
 Proof. exact memo_history_independent. Qed.
 Print Assumptions C10_memo_history_independent.
+
+(* 8b. a cache whose key is a projection of the input (resolution_cache is keyed by
+       _LookupContext(varname, node, state)): history-independent whenever the key determines
+       the cached result, and -- conversely -- any two inputs with equal keys and different
+       results give a history that changes an answer.  The key that keeps the node is
+       injective; the key that forgets it is refuted. *)
+Theorem C10_keyed_memo_history_independent : forall key f, key_determines key f ->
+  forall h1 h2 x, answer_after key f h1 x = answer_after key f h2 x /\ answer_after key f h1 x = f x.
+Proof. exact keyed_memo_history_independent. Qed.
+Print Assumptions C10_keyed_memo_history_independent.
+
+Theorem C10_keyed_memo_needs_determining_key : forall key f x y,
+  key x = key y -> f x <> f y -> answer_after key f [x] y <> answer_after key f [] y.
+Proof. exact keyed_memo_needs_determining_key. Qed.
+Print Assumptions C10_keyed_memo_needs_determining_key.
+
+Theorem C10_node_in_key_suffices : forall f h1 h2 x,
+  answer_after full_key f h1 x = answer_after full_key f h2 x.
+Proof. exact full_key_history_independent. Qed.
+Print Assumptions C10_node_in_key_suffices.
+
+Theorem C10_name_only_key_refuted : exists f h x, answer_after name_only_key f h x <> answer_after name_only_key f [] x.
+Proof. exact name_only_key_refuted. Qed.
+Print Assumptions C10_name_only_key_refuted.
+
+(* 8c. state that outlives one check, regenerated from the seven files: every module- or
+       class-level mutable object that is stored through is audited, the only process-global
+       cache is `_empty_constrained.resolution_cache`, and every cache lookup/store of the
+       seven files uses exactly the pinned key expression *)
+Theorem C10_global_state_classified :
+  forallb state_classified state_items = true /\ state_audit_live state_items = true /\
+  cache_keys = pinned_cache_keys /\
+  map st_name (filter (fun s => match lookup_state s state_audit with Some (SProcessCache _) => true | _ => false end) state_items)
+  = ["_empty_constrained"%string].
+Proof.
+  destruct all_state_items_classified as [H1 H2]. split; [exact H1|]. split; [exact H2|].
+  split; [apply keys_eqb_eq; exact cache_keys_are_pinned|exact process_global_caches_are_exactly].
+Qed.
+Print Assumptions C10_global_state_classified.
 
 (* 9. the inventory regenerated from the current source is completely classified,
       the audit table has no stale entry, and the residual sites are exactly the three named ones *)
